@@ -8,9 +8,11 @@
 (*     driver's own pre-order traversal of the returned tree with Info.Pos),     *)
 (*     walk (the ast.Walk callback sequence with parents)                        *)
 (*   kind = "bytes": arbitrary or token-mutated bytes: totality only             *)
+(*   kind = "lit": `const string x = <literal>` with the literal's quote q and     *)
+(*     body (bytes) from MCQuote; lit = the bytes of the constant returned          *)
 (* linelens = byte length of every line of the document.                         *)
 (***************************************************************************)
-EXTENDS TraceBase, Lexer
+EXTENDS TraceBase, Lexer, Quote
 
 VARIABLES l, bad, drift
 
@@ -79,6 +81,13 @@ ScriptConf(e, r) ==
          <<"docstrings-as-the-scanner-model-predicts",
              \A i \in 1..N(e) : e.xnodes[i].hasdoc => e.nodes[i].doc = DocText(e, r.doc[i])>> }
 
+LitChecks(e) ==
+  { <<"literal-denotes-its-escape-sequences",
+        LET d == Denote(e.body) IN IF d.ok THEN e.ok /\ e.lit = d.v ELSE ~e.ok>> }
+LitConf(e) ==
+  { <<"literal-as-the-unquote-model-predicts",
+        LET d == Fixed(e.q, e.body) IN IF d.ok THEN e.ok /\ e.lit = d.v ELSE ~e.ok>> }
+
 Init == l = 1 /\ bad = {} /\ drift = {}
 Next == /\ l <= Len(Trace)
         /\ l' = l + 1
@@ -87,6 +96,9 @@ Next == /\ l <= Len(Trace)
            THEN \E r \in { Run(e.items) } :
                   /\ bad' = bad \cup Tag(l, Failed(Totality(e) \cup ScriptChecks(e, r)))
                   /\ drift' = drift \cup Tag(l, Failed(ScriptConf(e, r)))
+           ELSE IF e.kind = "lit"
+           THEN /\ bad' = bad \cup Tag(l, Failed(Totality(e) \cup LitChecks(e)))
+                /\ drift' = drift \cup Tag(l, Failed(LitConf(e)))
            ELSE /\ bad' = bad \cup Tag(l, Failed(Totality(e)))
                 /\ UNCHANGED drift
 Spec == Init /\ [][Next]_<<l, bad, drift>>
